@@ -24,7 +24,7 @@ tvars == <<l, answer, sessions>>
 SetOf(s) == {s[i] : i \in 1..Len(s)}
 Min(T) == CHOOSE x \in T : \A y \in T : x <= y
 
-TInit == l = 1 /\ answer = [q \in 1..NPhrases |-> 0] /\ sessions = {} /\ TLCSet(1, 0) /\ TLCSet(2, 0)
+TInit == l = 1 /\ answer = [q \in 1..NPhrases |-> 0] /\ sessions = {} /\ TLCSet(1, 0) /\ TLCSet(2, 0) /\ TLCSet(3, 0)
 
 TSession == /\ l <= Len(Rec) /\ Rec[l].ev = "session"
             /\ sessions' = sessions \cup {Rec[l].id}
@@ -41,9 +41,16 @@ TLookup == /\ l <= Len(Rec) /\ Rec[l].ev = "lookup"
               /\ IF w = Min(T) \/ ~Rec[l].full THEN TRUE ELSE TLCSet(2, TLCGet(2) + 1)  \* canonical winner? (drift only)
            /\ l' = l + 1 /\ UNCHANGED sessions
 
-TNext == TSession \/ TLookup
+\* the layout of a freshly built on-disk index, read with tantivy directly: IndexBuild.tla with one worker publishes one
+\* segment in shipped order (ShippedOrder); anything else is counted in register 3 (drift: the model of the build no
+\* longer describes the code -- the answers themselves are judged by TLookup)
+TLayout == /\ l <= Len(Rec) /\ Rec[l].ev = "layout"
+           /\ IF Rec[l].segments = 1 /\ Rec[l].flat = [i \in 1..Len(Rec[l].flat) |-> i] THEN TRUE ELSE TLCSet(3, TLCGet(3) + 1)
+           /\ l' = l + 1 /\ UNCHANGED <<answer, sessions>>
+
+TNext == TSession \/ TLookup \/ TLayout
 TSpec == TInit /\ [][TNext]_tvars
 
 Progress == TLCSet(1, IF TLCGet(1) < l THEN l ELSE TLCGet(1))
-Report == PrintT(<<"REACHED", TLCGet(1), Len(Rec), TLCGet(2)>>)
+Report == PrintT(<<"REACHED", TLCGet(1), Len(Rec), TLCGet(2), TLCGet(3)>>)
 =============================================================================
